@@ -32,7 +32,16 @@ var stdNames = []string{"space", "exclam", "A", "B", "C", "a", "b", "c", "zero",
 var stdCode = map[string]int{"space": 32, "exclam": 33, "A": 65, "B": 66, "C": 67, "a": 97, "b": 98, "c": 99, "zero": 48, "one": 49,
 	"period": 46, "comma": 44, "hyphen": 45, "grave": 193, "acute": 194}
 
+// craftedStrings: control bytes followed by octal digits, form feed (ends a comment), escapes at the
+// end, unbalanced and nested parentheses, a percent sign, DEL - each of them a case a writer of
+// string literals or of comment lines must get right, none of them likely in a random draw.
+var craftedStrings = []string{"\f", "a\fb 1 pop", "\n2019", "\t7", "\x000", "x\r\n1", "\x7f5", "\b0\f1", "(", ")(", "((a)", "a\\", "\\1", "\\(", "%!PS", "% 100%",
+	"\x01\x02\x1f", "1\n2\r3\t4", "\f\f", " lead and trail "}
+
 func hardString(rng *rand.Rand) string {
+	if rng.Intn(2) == 0 {
+		return craftedStrings[rng.Intn(len(craftedStrings))]
+	}
 	special := []byte{'(', ')', '\\', '\r', '\n', 0, '%', 200, 255, ' ', 'a', '/', '{', '<', '\f', '\t', 'x', 127}
 	n := rng.Intn(12)
 	b := make([]byte, n)
